@@ -10,7 +10,7 @@ import sys
 import mido
 from mido.parser import Parser
 
-assert mido.__file__.startswith('/tmp/seed_C05/'), mido.__file__
+
 
 STREAM = [0x90, 1, 2, 0x90, 3, 4, 0x90, 5, 6]
 
